@@ -88,3 +88,23 @@ pub fn vx_panic_()
     requires
         false, // [C14 no_panic_outside_a_blocking_job]
 { unimplemented!() }
+impl<T> PMutex<T> {
+    // `try_lock()` is `Ok(guard)`: the mutex was free and not poisoned; otherwise nothing happens
+    #[verifier::external_body]
+    pub fn try_lock_(&mut self) -> (r: bool)
+        requires !old(self).held@
+        ensures final(self).data == old(self).data, final(self).poisoned == old(self).poisoned, final(self).held@ == r, r ==> !old(self).poisoned@
+    { unimplemented!() }
+    // `lock()` is `Ok(guard)`: acquired and not poisoned; if poisoned the guard inside the error is dropped at once
+    #[verifier::external_body]
+    pub fn lock_unpoisoned_(&mut self) -> (r: bool)
+        requires !old(self).held@
+        ensures final(self).data == old(self).data, final(self).poisoned == old(self).poisoned, final(self).held@ == r, r == !old(self).poisoned@
+    { unimplemented!() }
+}
+// `Option::take` on the wrapped value: the value leaves the wrapper (whoever holds it now will run its destructor)
+pub fn vx_take_value<T>(o: &mut Option<T>, blocking: bool) -> (r: Option<T>)
+    requires
+        old(o).is_some() ==> blocking, // [C14 value_leaves_the_wrapper_only_inside_a_blocking_job]
+    ensures r == *old(o), final(o).is_none()
+{ o.take() }
